@@ -63,11 +63,21 @@ pub fn run(rep: &mut Report) {
                     let (ba, bb) = if reuse {
                         let mut sk = make_usk(kind, m);
                         let njunk = if rng.random_range(0..2) == 0 { 2 * m + 5 } else { 1 };
-                        sk.sketch_slice(&fresh_ids(rng, njunk, 0));
+                        // every stream starts with the item the previous one ended with (state kept across reinit would show)
+                        let mut junk = fresh_ids(rng, njunk, 0);
+                        if let Some(f) = a.first() {
+                            junk.push(*f);
+                        }
+                        sk.sketch_slice(&junk);
                         sk.reinit();
                         sk.sketch_slice(&a);
                         let ba = sk.bits();
                         sk.reinit();
+                        if let Some(last) = a.last() {
+                            if let Some(p) = b.iter().position(|x| x == last) {
+                                b.swap(0, p);
+                            }
+                        }
                         for x in &b {
                             sk.sketch(*x);
                         }
